@@ -942,6 +942,20 @@ fn write_disk(t: &Tree, root: &PathBuf) -> std::io::Result<()> {
             std::os::unix::fs::symlink(&to, &from)?;
         }
     }
+    // links that lead back into the tree (to the directory they are in, to the package directory): a module
+    // directory is a module once, however many ways lead to it
+    if salt % 7 == 3 {
+        for m in 1..t.mods.len() {
+            let md = &t.mods[m];
+            if !md.children.is_empty() || md.as_dir {
+                let d = t.module_path(m).iter().fold(root.clone(), |p, s| p.join(s));
+                if d.is_dir() {
+                    let _ = std::os::unix::fs::symlink(".", d.join("zz_again"));
+                    let _ = std::os::unix::fs::symlink(root, d.join("zz_top"));
+                }
+            }
+        }
+    }
     Ok(())
 }
 
